@@ -116,10 +116,14 @@ func (m *Model) Snapshot(name string, user bool) {
 func (m *Model) Fold(i int, raw bool) {
 	x := m.Chain[i]
 	p := m.Chain[i-1]
-	p.Img = x.Img
-	if !x.Exact {
-		p.Exact = false
+	if raw || !(p.User && !p.Removed) {
+		p.Img = x.Img
+		if !x.Exact {
+			p.Exact = false
+		}
 	}
+	// else: a deletion through the cleaner route must never change a retained user snapshot; its expected
+	// image stays what it was (a cleaner that picks such a victim is caught by the image comparison)
 	if raw {
 		p.Tainted = true
 	}
